@@ -8,7 +8,10 @@ import z3
 
 from .values import Infeasible, Unsupported
 
-FEAS_RLIMIT = 300000
+FEAS_RLIMIT = 40000
+PROOF_STEP_S = float(os.environ.get('PYVC_PROOF_STEP_S', '3.0'))
+_FEAS_CACHE = {}
+PROF = {}
 STATS = {'solver_calls': 0, 'solver_s': 0.0, 'unknown': 0}
 
 _glob = itertools.count(1)
@@ -26,7 +29,13 @@ class Hyp:
         self.vars, self.body, self.origin = list(vars_), body, origin
 
     def instantiate(self, terms):
-        return z3.substitute(self.body, *[(v, t) for v, t in zip(self.vars, terms)])
+        key = tuple(t.get_id() for t in terms)
+        c = self.__dict__.setdefault('_cache', {})
+        hit = c.get(key)
+        if hit is None:
+            hit = (z3.substitute(self.body, *[(v, t) for v, t in zip(self.vars, terms)]), list(terms))
+            c[key] = hit
+        return hit[0]
 
 
 class Path:
@@ -40,6 +49,8 @@ class Path:
         self.hyps = list(parent.hyps) if parent else []
         self.index_terms = list(parent.index_terms) if parent else []
         self.binders = list(parent.binders) if parent else []   # active bound index variables
+        self.pred_done = set(parent.pred_done) if parent else set()   # predicate applications with lemmas given
+        self.atom_names = list(parent.atom_names) if parent else []   # exists-atoms defined on this lineage
         self.timeout_ms = timeout_ms
         self.feas_timeout_ms = parent.feas_timeout_ms if parent else 700
         self.journal = None          # loop-body effect journal
@@ -95,20 +106,6 @@ class Path:
                     continue
                 self._inst_done.add(key)
                 self._solver.add(h.instantiate(c))
-        # lemma instances for the character-class predicates (fixpoint, bounded)
-        from . import ops
-        extra = list(self._extra_for_lemmas)
-        self._extra_lemmas = []
-        for _round in range(4):
-            fresh = self._solver.assertions()
-            start = self._lemma_pos
-            new = ops.theory_lemmas([fresh[i] for i in range(start, len(fresh))] + extra, self._lemma_done)
-            self._lemma_pos = len(fresh)
-            extra = []
-            if not new:
-                break
-            for f in new:
-                self._solver.add(f)
 
     def _run(self, extra, timeout_ms, want_model=False):
         self._extra_for_lemmas = [e for e in extra if z3.is_expr(e)]
@@ -133,6 +130,12 @@ class Path:
         dt = time.time() - t0
         STATS['solver_calls'] += 1
         STATS['solver_s'] += dt
+        if os.environ.get('PYVC_PROF'):
+            import traceback
+            fr = [f'{f.name}:{f.lineno}' for f in traceback.extract_stack()[-9:-2]]
+            PROF.setdefault(' < '.join(reversed(fr[-5:])), [0, 0.0])
+            PROF[' < '.join(reversed(fr[-5:]))][0] += 1
+            PROF[' < '.join(reversed(fr[-5:]))][1] += dt
         if r == z3.unknown:
             STATS['unknown'] += 1
             try:
@@ -151,17 +154,77 @@ class Path:
             m = s.model()
         return r, m
 
-    def check(self, *extra, timeout_ms=None):
-        """sat / unsat / unknown of pc + extra."""
-        r, _ = self._run(extra, timeout_ms or self.timeout_ms)
+    def _run_forked(self, extra, seconds):
+        """second attempt for a feasibility query in a forked child with a HARD time limit (z3's sequence
+        solver honours neither timeout nor rlimit reliably)"""
+        import select
+        import signal
+        self._sync()
+        r_fd, w_fd = os.pipe()
+        t0 = time.time()
+        pid = os.fork()
+        if pid == 0:
+            try:
+                os.close(r_fd)
+                s = z3.Solver()
+                s.set('timeout', int(seconds * 1000))
+                for f in self._solver.assertions():
+                    s.add(f)
+                for e in extra:
+                    s.add(e)
+                r = s.check()
+                os.write(w_fd, b'u' if r == z3.unsat else (b's' if r == z3.sat else b'?'))
+            except BaseException:
+                pass
+            finally:
+                os._exit(0)
+        os.close(w_fd)
+        res = z3.unknown
+        ready, _, _ = select.select([r_fd], [], [], seconds + 0.2)
+        if ready:
+            b = os.read(r_fd, 1)
+            res = z3.unsat if b == b'u' else (z3.sat if b == b's' else z3.unknown)
+        else:
+            try:
+                os.kill(pid, signal.SIGKILL)
+            except Exception:
+                pass
+        os.close(r_fd)
+        try:
+            os.waitpid(pid, 0)
+        except Exception:
+            pass
+        STATS['forked_checks'] = STATS.get('forked_checks', 0) + 1
+        STATS['solver_s'] += time.time() - t0
+        return res
+
+    def check(self, *extra, timeout_ms=None, proof_step=False):
+        """sat / unsat / unknown of pc + extra.  proof_step: the answer `unsat` is needed for a proof (meta-rule side
+        condition), so an `unknown` of the cheap in-process attempt is retried in a forked child with a hard limit."""
+        t = timeout_ms or self.timeout_ms
+        if t <= 1000:
+            # feasibility queries repeat along shared path prefixes (paths are re-executed): memoise them.
+            # Keys are z3 AST ids; the ASTs are kept alive in the cache entry so ids cannot be recycled.
+            key = (tuple(f.get_id() for f in self.pc), tuple(id(h) for h in self.hyps),
+                   tuple(x.get_id() for x in self.index_terms), tuple(e.get_id() for e in extra if z3.is_expr(e)))
+            hit = _FEAS_CACHE.get(key)
+            if hit is not None:
+                STATS['cache_hits'] = STATS.get('cache_hits', 0) + 1
+                return hit[0]
+            r, _ = self._run(extra, t)
+            if r == z3.unknown and proof_step:
+                r = self._run_forked(extra, PROOF_STEP_S)
+            _FEAS_CACHE[key] = (r, list(self.pc), list(self.hyps), list(self.index_terms), list(extra))
+            return r
+        r, _ = self._run(extra, t)
         return r
 
     def model(self, *extra):
         r, m = self._run(extra, self.timeout_ms, want_model=True)
         return m
 
-    def entails(self, f):
-        return self.check(z3.Not(f)) == z3.unsat
+    def entails(self, f, timeout_ms=None):
+        return self.check(z3.Not(f), timeout_ms=timeout_ms or self.feas_timeout_ms, proof_step=True) == z3.unsat
 
     # ---- path condition ------------------------------------------------------------------------------
     def assume(self, f):
